@@ -95,7 +95,7 @@ func genC19(t *rapid.T, tier string) interface{} {
 	if rapid.IntRange(0, 9).Draw(t, "keybase") == 0 {
 		maxOps := 8
 		p.KB = rapid.SliceOfN(rapid.Custom(func(t *rapid.T) c19KBOp {
-			o := c19KBOp{Op: rapid.SampledFrom([]string{"create", "importobj", "importarmor", "importarmor", "importbad", "importsecp", "update", "update", "delete", "sign", "sign", "exportarmor", "exportarmor", "exportobj", "get"}).Draw(t, "op")}
+			o := c19KBOp{Op: rapid.SampledFrom([]string{"create", "importobj", "importarmor", "importarmor", "importbad", "importsecp", "update", "update", "delete", "sign", "sign", "exportarmor", "exportarmor", "exportobj", "get", "setcoinbase", "getcoinbase"}).Draw(t, "op")}
 			o.Addr = rapid.IntRange(0, 5).Draw(t, "addr")
 			o.Seed = rapid.IntRange(0, 3).Draw(t, "seed")
 			o.Pass = rapid.IntRange(0, len(c19Passes)-1).Draw(t, "pass")
@@ -383,6 +383,7 @@ func execC19KB(p *c19Prog, c *Case) *Violation {
 	var order []string // addresses in creation order (first keybase)
 	var exports []c19Export
 	wrongThenRight := false
+	coinbaseOps := 0
 	lastWrong := map[string]bool{}
 	addrOf := func(i int) (sdk.Address, string, bool) {
 		if len(order) == 0 {
@@ -616,6 +617,17 @@ func execC19KB(p *c19Prog, c *Case) *Violation {
 				if right && err == nil && !bytes.Equal(priv.PublicKey().RawBytes(), e.pub.RawBytes()) {
 					return violf("C19/keybase/export", "step %d: ExportPrivateKeyObject returned another key", step)
 				}
+			case "setcoinbase", "getcoinbase":
+				// traffic only: which key the node signs with is not part of the statement, so nothing is asserted
+				// about the answer - but selecting a key must not change what the passphrase-checked operations
+				// that follow do with it
+				if o.Op == "setcoinbase" {
+					_ = kb.SetCoinbase(addr)
+				} else {
+					_, _ = kb.GetCoinbase()
+				}
+				coinbaseOps++
+				continue
 			case "get":
 				var kp keys.KeyPair
 				kp, err = kb.Get(addr)
@@ -663,6 +675,9 @@ func execC19KB(p *c19Prog, c *Case) *Violation {
 	}
 	c.Eval(fmt.Sprintf("%v", p.KB), wrongThenRight)
 	c.Label("keybase-program")
+	if coinbaseOps > 0 {
+		c.Label("keybase-program-with-coinbase-selection")
+	}
 	return nil
 }
 
@@ -671,7 +686,7 @@ func init() {
 		Rule: "nine in ten cases are batches of 1-12 signature evaluations: a key tree (ed25519 / secp256k1 leaves from drawn seeds, multisignature nodes with 2-4 children, nesting <= 2), a message of " +
 			"0..4096 bytes and one mutation (none; leaf: signed by another key, other message, bit flip, truncation, extension, empty; multisig node: drop / swap / duplicate / extra / foreign component; or " +
 			"verification against another message / another key); VerifyBytes must be true exactly when no mutation took effect. One in ten cases is a keybase program of 3-9 operations (create, import raw key, " +
-			"import an earlier export into the same or a second keybase, update, delete, sign, export armored / raw, get) with right and wrong passphrases drawn from {empty, ASCII, one char, unicode, 208 chars, " +
+			"import an earlier export into the same or a second keybase, update, delete, sign, export armored / raw, get, select / read the coinbase key) with right and wrong passphrases drawn from {empty, ASCII, one char, unicode, 208 chars, " +
 			"trailing space}, compared with a map model after every operation incl. List(). Non-trivial = a negative verification case, or a keybase program in which a wrong-passphrase operation is followed " +
 			"by a right-passphrase operation on the same key; distinctness = hash of the evaluation",
 		Gen: genC19, New: func() interface{} { return &c19Prog{} }, Exec: execC19,
